@@ -55,7 +55,7 @@ func checkC06(ctx *Ctx, r *Report, tier string) {
 	if cf := ctx.ssaFunc("render", "verifCtlInterpolateBadSnap"); cf != nil {
 		interpSnap(ctx, r, "render", "verifCtlInterpolateBadSnap")
 		r.expectControl("V1", "verifCtlInterpolateBadSnap")
-	} else {
+	} else if !r.controlSkipped() {
 		r.undecided("V1", "control", 0, "positive control missing")
 	}
 	r.floor("V1", 8)
